@@ -157,7 +157,9 @@ namespace trompeloeil
   struct co_throw_handler_t
   {
     using R = decltype(default_return<return_of_t<signature>>());
-    using promise_value_type = trompeloeil::coro_value_type_t<R>;
+    using promise_type = typename std::coroutine_traits<R>::promise_type;
+    static constexpr bool returns_void = requires(promise_type& p) { p.return_void(); };
+    using promise_value_type = std::conditional_t<returns_void, void, trompeloeil::coro_value_type_t<R>>;
     explicit
     co_throw_handler_t(H&& h_)
       : h(std::move(h_))
